@@ -75,6 +75,12 @@ def main():
                 "level_note": COMMON_NOTE + note, "technique": TECH})
         else:
             na.append({"property_id": pid, "reason": NA_REASONS.get(pid, "check not registered yet (under construction)")})
+    import subprocess
+    fixes = subprocess.run(["git", "-C", "/repo", "log", "--format=%h %s", "--grep", "^fix:"], capture_output=True, text=True).stdout.strip().splitlines()
+    m["hooks"]["source_commits"] = [l.split()[0] for l in fixes][::-1]
+    m["hooks"]["enable"] = "no hooks in /repo: harnesses, the zzvrt API package and replay tests enter through go/packages Overlay and `go test -overlay`; source_commits lists the unguarded `fix:` commits (genuine defects repaired)"
+    m["notes"] = ("All checks share one engine (symgo). Known findings: /verif/known_findings.txt and /verif/known_findings.d/CNN.txt. "
+                  "Seeded changes tried against the checks: /verif/seeded/<ID>_m<k>/ (patch, demonstration, meta.json with the outcome). C09 is the only property without a check yet.")
     m["checks"] = checks
     m["not_applicable"] = na
     m["engines"] = [{"name": "symgo", "path": "/verif/engine", "serves_properties": [c["property_id"] for c in checks],
